@@ -124,7 +124,7 @@ var errInjectedProduce = errors.New("verif: injected produce failure")
 
 var coqLabel = map[string]string{
 	"scan": "JScan", "eof": "JEof", "tok": "JTok", "rcancel": "JRCancel", "enq": "JEnq", "done": "JDone",
-	"take": "JTake", "recv": "JRecv", "tokrel": "JTokRel", "produce": "JProduce", "produceerr": "JProduceErr",
+	"tokrel": "JTokRel", "produce": "JProduce", "produceerr": "JProduceErr",
 	"parseerr": "JParseErr", "procend": "JProcEnd", "recvdone": "JRecvDone", "ctx": "JCtx", "ext": "JExt",
 }
 
@@ -162,7 +162,8 @@ func quiescent(evs []jsonds.VerifEvent) bool {
 	for _, e := range evs {
 		c[e.Event]++
 	}
-	return c["done"]+c["rcancel"] == 1 && c["enq"] == c["take"] && c["take"] == c["send"]+c["drop"]
+	// rexit is logged after `done <- sc.Err()` went through (done is logged before the send)
+	return c["rexit"]+c["rcancel"] == 1 && c["enq"] == c["take"] && c["take"] == c["send"]+c["drop"]
 }
 
 func runScenario(dir string, idx int, s Scenario, r *lib.Rng, w int) ChildCase {
@@ -304,19 +305,28 @@ func runScenario(dir string, idx int, s Scenario, r *lib.Rng, w int) ChildCase {
 	if s.Long >= 0 {
 		cc.ScanN, cc.Rerr = s.Long, true
 	}
+	// an `eof` before all lines were scanned, or a `done` carrying an error that the file does not explain, is the
+	// scan loop ending on the file that Run's deferred f.Close() closed: label JEofClosed (the LTS allows it only
+	// after Run has returned)
+	closedEof := cc.Counts["scan"] < cc.ScanN
 	for _, e := range evs {
-		if e.Event == "done" && (e.Args[0] == 1) != cc.Rerr && cc.Viol == "" {
-			cc.Viol = fmt.Sprintf("reader reported sc.Err()!=nil = %v, expected %v", e.Args[0] == 1, cc.Rerr)
+		if e.Event == "done" && e.Args[0] == 1 && !cc.Rerr {
+			closedEof = true
 		}
 	}
 	norm, swaps := normalise(evs)
 	cc.Swaps = swaps
 	for _, e := range norm {
 		switch e.Event {
-		case "send":
-			cc.Trace = append(cc.Trace, fmt.Sprintf("JSend (nn %d)", e.Args[0]))
-		case "drop":
-			cc.Trace = append(cc.Trace, fmt.Sprintf("JDrop (nn %d)", e.Args[0]))
+		case "send", "drop", "take", "recv":
+			cc.Trace = append(cc.Trace, fmt.Sprintf("%s (nn %d)", map[string]string{"send": "JSend", "drop": "JDrop", "take": "JTake", "recv": "JRecv"}[e.Event], e.Args[0]))
+		case "rexit": // only used for the quiescence test
+		case "eof":
+			if closedEof {
+				cc.Trace = append(cc.Trace, "JEofClosed")
+			} else {
+				cc.Trace = append(cc.Trace, "JEof")
+			}
 		default:
 			l, ok := coqLabel[e.Event]
 			if !ok {
